@@ -12,7 +12,8 @@ import lexer
 
 COMMENT_TEXTS = ["plain note", "it's quoted", "say \"hi\"", "a & b", "bang ! inside", "x = 1; y = 2",
                  "(unbalanced", "trailing &", "'", "$omp parallel do", "dir$ ivdep", "MiXeD Case",
-                 "DIR$ IVDEP", "Dir$ vector always", "GCC$ unroll 4", "$OMP END PARALLEL DO", "gcc$ ivdep"]
+                 "DIR$ IVDEP", "Dir$ vector always", "GCC$ unroll 4", "$OMP END PARALLEL DO", "gcc$ ivdep",
+                 "$ x = 1", "$   & + 2"]
 KEYWORDS_CASES = ("keep", "upper", "lower")
 
 
@@ -139,7 +140,10 @@ def free_layout(stmts, rng, user_names, p_break=0.35, p_comment=0.25, p_join=0.2
                 while p < b - 1:
                     p += 2 if (text[p] == q and p + 1 < b - 1 and text[p + 1] == q) else 1
                     bounds.append(p)
-                cuts.append((rng.choice(bounds), True))
+                # a long literal may be broken more than once (a middle line then holds neither quote)
+                nb = 1 if b - a < 12 else rng.choice([1, 2, 3])
+                for bd in rng.sample(bounds, min(nb, len(bounds))):
+                    cuts.append((bd, True))
         if s.name and s.kind not in ("end_block_data", "error_stop") and rng.random() < 0.2:
             # the construct name alone on the first line:  "nm: &" / "keyword ..."
             cuts.append((0, False))
